@@ -946,7 +946,10 @@ func BuildProg(p *Prog) *Built {
 		switch d.Op {
 		case "NewFunc":
 		case "NewGlobal":
-			bt.register(d.Name, m.NewGlobal(d.Name, bt.tc.Type(&d.Ty)))
+			// a global without initialiser is a declaration: LLVM requires external linkage (DESIGN.md 3, rule 3)
+			g := m.NewGlobal(d.Name, bt.tc.Type(&d.Ty))
+			g.Linkage = enum.LinkageExternal
+			bt.register(d.Name, g)
 		case "NewGlobalDef":
 			bt.register(d.Name, m.NewGlobalDef(d.Name, BuildConst(d.Init, bt.tc, bt)))
 		case "NewAlias":
